@@ -221,3 +221,424 @@ Proof.
   - rewrite F in T3. congruence.
   - congruence.
 Qed.
+
+(* ================= who the server authenticates ================= *)
+
+
+(* every input the server's trace says it took is an item of the script it was given *)
+Definition sfrom (e : list ev) (ins : list cin) : Prop := forall i, In (Took i) e -> In i ins.
+Definition srest (r ins : list cin) : Prop := forall j, In j r -> In j ins.
+
+Lemma sfrom_nil ins : sfrom [] ins. Proof. intros ? []. Qed.
+Lemma sfrom_app a b ins : sfrom a ins -> sfrom b ins -> sfrom (a ++ b) ins.
+Proof. intros Ha Hb i Hi. apply in_app_or in Hi. destruct Hi; [apply Ha|apply Hb]; assumption. Qed.
+Lemma sfrom_rest e r ins : sfrom e r -> srest r ins -> sfrom e ins.
+Proof. intros He Hr i Hi. apply Hr, He, Hi. Qed.
+Lemma srest_refl a : srest a a. Proof. intros j Hj; exact Hj. Qed.
+Lemma srest_trans a b c : srest a b -> srest b c -> srest a c.
+Proof. intros H1 H2 j Hj. apply H2, H1, Hj. Qed.
+Lemma srest_tl x a : srest a (x :: a). Proof. intros j Hj; right; exact Hj. Qed.
+Lemma sfrom_no_took e ins : (forall i, ~ In (Took i) e) -> sfrom e ins.
+Proof. intros H i Hi. destruct (H i Hi). Qed.
+
+Lemma receive_sfrom c ins x c' r e : receive c ins = (x, c', r, e) -> sfrom e ins /\ srest r ins.
+Proof.
+  unfold receive. destruct (negb (ch_conn c)); [intros H; inversion H; subst; split; [apply sfrom_nil|apply srest_refl]|].
+  destruct ins as [|i ins]; [intros H; inversion H; subst; split; [apply sfrom_nil|apply srest_refl]|].
+  destruct i; intros H; inversion H; subst; (split; [intros k [Hk|[]]; inversion Hk; left; reflexivity|apply srest_tl]).
+Qed.
+
+Lemma send_sfrom c s evs ok ins : send_session c s = (evs, ok) -> sfrom evs ins.
+Proof.
+  unfold send_session. destruct (negb (ch_conn c)); [intros H; inversion H; apply sfrom_nil|].
+  destruct (terminal (ch_state c)); intros H; inversion H; subst; [apply sfrom_nil|].
+  intros i [Hi|[]]; discriminate.
+Qed.
+
+Lemma fail_sfrom conf c evs c' out ins : fail_session conf c = (evs, c', out) -> sfrom evs ins.
+Proof.
+  unfold fail_session. destruct (negb (ch_conn c)); [intros H; inversion H; apply sfrom_nil|].
+  match goal with |- context [send_session c ?s] => destruct (send_session c s) as [e ok] eqn:S end.
+  pose proof (send_sfrom _ _ _ _ ins S) as F.
+  destruct (set_state c SFailed); [destruct ok|]; intros H; inversion H; subst; try exact F.
+  apply sfrom_app; [exact F|]. intros i [Hi|[]]; discriminate.
+Qed.
+
+Lemma sfrom_cons_call e x ins : (forall i, x <> Took i) -> sfrom e ins -> sfrom (x :: e) ins.
+Proof. intros Hx He i [Hi|Hi]; [destruct (Hx i Hi)|apply He; exact Hi]. Qed.
+
+Ltac notook := let i := fresh in let H := fresh in intros i H; discriminate H.
+Ltac calls := repeat (apply sfrom_cons_call; [notook|]).
+Ltac fin H := inversion H; subst; split; [calls; try apply sfrom_nil|try apply srest_refl].
+
+Lemma auth_loop_sfrom conf o : forall ins c ses round evs c' out ins',
+  auth_loop conf o c ses round ins = (evs, c', out, ins') -> sfrom evs ins /\ srest ins' ins.
+Proof.
+  induction ins as [|i rest IH]; intros c ses round evs c' out ins' H; rewrite auth_loop_eq in H.
+  all: destruct (negb (state_eqb (cs_state ses) SAuthenticating));
+    [destruct (fail_session conf c) as [[e1 c1] o1] eqn:F; fin H; eapply fail_sfrom; exact F|].
+  all: destruct (negb (String.eqb (cs_id ses) (sc_sid conf)));
+    [destruct (fail_session conf c) as [[e1 c1] o1] eqn:F; fin H; eapply fail_sfrom; exact F|].
+  all: destruct (negb (mem (cs_scheme ses) (sc_schemes conf)));
+    [destruct (fail_session conf c) as [[e1 c1] o1] eqn:F; fin H; eapply fail_sfrom; exact F|].
+  all: cbv zeta in H; cbn [app] in H.
+  all: destruct (o_auth o (cs_from ses) (presented_scheme ses) (cs_cred ses) round) as [| |data|].
+  all: try (destruct (o_reg o (cs_from ses)) as [n|]; [|fin H];
+            destruct (negb (ch_conn c)); [fin H|];
+            destruct (set_state c SEstablished) as [c1|]; [|fin H];
+            match type of H with context [send_session ?cc ?s] => destruct (send_session cc s) as [e1 ok] eqn:Sd end;
+            fin H; eapply send_sfrom; exact Sd).
+  all: try (destruct (fail_session conf c) as [[e1 c1] o1] eqn:F; fin H; eapply fail_sfrom; exact F).
+  all: try (fin H; fail).
+  - destruct (negb (ch_conn c && state_eqb (ch_state c) SAuthenticating)); [fin H|].
+    match type of H with context [send_session c ?s] => destruct (send_session c s) as [e1 ok] eqn:Sd end.
+    destruct (negb ok); fin H; eapply send_sfrom; exact Sd.
+  - destruct (negb (ch_conn c && state_eqb (ch_state c) SAuthenticating)); [fin H|].
+    match type of H with context [send_session c ?s] => destruct (send_session c s) as [e1 ok] eqn:Sd end.
+    pose proof (send_sfrom _ _ _ _ (i :: rest) Sd) as F1.
+    destruct (negb ok); [fin H; exact F1|].
+    destruct (receive c (i :: rest)) as [[[x c2] r2] tk] eqn:R.
+    destruct (receive_sfrom _ _ _ _ _ _ R) as [FR RR].
+    destruct x as [ses'| |].
+    + destruct (auth_loop conf o c2 ses' (S round) rest) as [[[e2 c3] o3] i3] eqn:L.
+      destruct (IH _ _ _ _ _ _ _ L) as [F2 R2].
+      inversion H; subst. split.
+      * calls. apply sfrom_app; [exact F1|]. apply sfrom_app; [exact FR|].
+        eapply sfrom_rest; [exact F2|apply srest_tl].
+      * eapply srest_trans; [exact R2|apply srest_tl].
+    + inversion H; subst. split; [|exact RR]. calls. apply sfrom_app; assumption.
+    + inversion H; subst. split; [|exact RR]. calls. apply sfrom_app; assumption.
+Qed.
+
+Lemma authenticate_sfrom conf o c ins evs c' out ins' :
+  authenticate_session conf o c ins = (evs, c', out, ins') -> sfrom evs ins /\ srest ins' ins.
+Proof.
+  unfold authenticate_session. destruct (sc_schemes conf); [intros H; fin H|].
+  destruct (negb (ch_conn c)); [intros H; fin H|].
+  destruct (negb (state_eqb (ch_state c) SNew || state_eqb (ch_state c) SNegotiating)); [intros H; fin H|].
+  destruct (set_state c SAuthenticating) as [c1|]; [|intros H; fin H].
+  match goal with |- context [send_session c1 ?s] => destruct (send_session c1 s) as [e1 ok] eqn:Sd end.
+  pose proof (send_sfrom _ _ _ _ ins Sd) as F1.
+  destruct (negb ok); [intros H; fin H; exact F1|].
+  destruct (receive c1 ins) as [[[x c2] r2] tk] eqn:R.
+  destruct (receive_sfrom _ _ _ _ _ _ R) as [FR RR].
+  destruct x as [ses| |].
+  - destruct (auth_loop conf o c2 ses 0 r2) as [[[e2 c3] o3] i3] eqn:L.
+    destruct (auth_loop_sfrom _ _ _ _ _ _ _ _ _ _ L) as [F2 R2].
+    intros H; inversion H; subst. split.
+    + apply sfrom_app; [exact F1|]. apply sfrom_app; [exact FR|]. eapply sfrom_rest; eassumption.
+    + eapply srest_trans; eassumption.
+  - intros H; inversion H; subst. split; [apply sfrom_app; assumption|exact RR].
+  - intros H; inversion H; subst. split; [apply sfrom_app; assumption|exact RR].
+Qed.
+
+Lemma negotiate_sfrom conf c co eo ins evs c' out ins' :
+  negotiate_session conf c co eo ins = (evs, c', out, ins') -> sfrom evs ins /\ srest ins' ins.
+Proof.
+  unfold negotiate_session.
+  destruct co as [|c0 cs]; [intros H; fin H|]. destruct eo as [|e0 es]; [intros H; fin H|].
+  destruct (negb (ch_conn c && state_eqb (ch_state c) SNew)); [intros H; fin H|].
+  destruct (set_state c SNegotiating) as [c1|]; [|intros H; fin H].
+  match goal with |- context [send_session c1 ?s] => destruct (send_session c1 s) as [e1 ok] eqn:Sd end.
+  pose proof (send_sfrom _ _ _ _ ins Sd) as F1.
+  destruct (negb ok); [intros H; fin H; exact F1|].
+  destruct (receive c1 ins) as [[[x c2] r2] tk] eqn:R.
+  destruct (receive_sfrom _ _ _ _ _ _ R) as [FR RR].
+  assert (F01 : sfrom (e1 ++ tk) ins) by (apply sfrom_app; assumption).
+  destruct x as [ses| |]; [|intros H; inversion H; subst; split; assumption|intros H; inversion H; subst; split; assumption].
+  destruct (negb (String.eqb (cs_id ses) (sc_sid conf))).
+  { destruct (fail_session conf c2) as [[e2 c3] o3] eqn:F. intros H; inversion H; subst. split; [|exact RR].
+    apply sfrom_app; [exact F01|eapply fail_sfrom; exact F]. }
+  match goal with |- context [if ?b then _ else _] => destruct b end.
+  2:{ destruct (fail_session conf c2) as [[e2 c3] o3] eqn:F. intros H; inversion H; subst. split; [|exact RR].
+      apply sfrom_app; [exact F01|eapply fail_sfrom; exact F]. }
+  match goal with |- context [send_session c2 ?s] => destruct (send_session c2 s) as [e2 ok2] eqn:Sd2 end.
+  pose proof (send_sfrom _ _ _ _ ins Sd2) as F2.
+  destruct (negb ok2); [intros H; inversion H; subst; split; [apply sfrom_app; assumption|exact RR]|].
+  set (cstep := if String.eqb (ch_comp c2) (cs_comp ses) then _ else _).
+  assert (FC : sfrom (fst cstep) ins).
+  { subst cstep. destruct (String.eqb (ch_comp c2) (cs_comp ses)); cbn [fst]; [apply sfrom_nil|].
+    intros i [Hi|[]]; discriminate. }
+  destruct (negb (snd cstep)).
+  { intros H; inversion H; subst. split; [|exact RR]. apply sfrom_app; [exact F01|apply sfrom_app; assumption]. }
+  destruct (String.eqb (ch_enc c2) (cs_enc ses)).
+  { intros H; inversion H; subst. split; [|exact RR]. apply sfrom_app; [exact F01|apply sfrom_app; assumption]. }
+  destruct (set_enc (sc_kind conf) (sc_tls_ok conf) (ch_enc c2) (cs_enc ses)) as [oke enc'].
+  intros H; inversion H; subst. split; [|exact RR].
+  apply sfrom_app; [exact F01|]. apply sfrom_app; [exact F2|]. apply sfrom_app; [exact FC|].
+  intros i [Hi|[]]; discriminate.
+Qed.
+
+Lemma establish_sfrom fx conf o ins evs c' out ins' :
+  establish fx conf o ins = (evs, c', out, ins') -> sfrom evs ins /\ srest ins' ins.
+Proof.
+  unfold establish.
+  destruct (receive (chan0 conf) ins) as [[[x c1] ins1] tk] eqn:R.
+  destruct (receive_sfrom _ _ _ _ _ _ R) as [FR RR].
+  destruct x as [ses| |]; [|intros H; inversion H; subst; split; assumption|intros H; inversion H; subst; split; assumption].
+  (* everything below produces (e, c2, out, rest) with sfrom e ins1 and srest rest ins1 *)
+  cbv zeta. set (X := if negb (String.eqb (cs_id ses) "") then _ else _).
+  assert (HX : forall e c2 o2 i2, X = (e, c2, o2, i2) -> sfrom e ins1 /\ srest i2 ins1);
+    [subst X|destruct X as [[[e c2] o2] i2]; destruct (HX _ _ _ _ eq_refl) as [FX RX];
+      intros H; inversion H; subst; split;
+      [apply sfrom_app; [exact FR|eapply sfrom_rest; eassumption]|eapply srest_trans; eassumption]].
+  intros e c2 o2 i2.
+  destruct (negb (String.eqb (cs_id ses) "")).
+  { destruct (fail_session conf c1) as [[e1 c3] o3] eqn:F. intros H; inversion H; subst.
+    split; [eapply fail_sfrom; exact F|apply srest_refl]. }
+  (* the final step keeps both facts *)
+  assert (Hfinal : forall (r : list ev * chan * outcome * list cin) e0 c0 o0 i0 e9 c9 o9 i9,
+            r = (e0, c0, o0, i0) -> sfrom e0 ins1 -> srest i0 ins1 ->
+            (let '(evs, c2, out, ins') := r in
+             match out with
+             | Returned false =>
+                 if negb (state_eqb (ch_state c2) SEstablished) && negb (state_eqb (ch_state c2) SFailed) && ch_conn c2
+                 then let '(e2, c3, out2) := fail_session conf c2 in (evs ++ e2, c3, out2, ins')
+                 else (evs, c2, Returned false, ins')
+             | _ => r
+             end) = (e9, c9, o9, i9) -> sfrom e9 ins1 /\ srest i9 ins1).
+  { intros r e0 c0 o0 i0 e9 c9 o9 i9 -> F0 R0.
+    destruct o0 as [[|]| |]; try (intros H; inversion H; subst; split; assumption).
+    destruct (negb (state_eqb (ch_state c0) SEstablished) && negb (state_eqb (ch_state c0) SFailed) && ch_conn c0).
+    - destruct (fail_session conf c0) as [[e2 c3] o3] eqn:F. intros H; inversion H; subst.
+      split; [apply sfrom_app; [exact F0|eapply fail_sfrom; exact F]|exact R0].
+    - intros H; inversion H; subst; split; assumption. }
+  destruct (state_eqb (cs_state ses) SNew).
+  2:{ intros H. eapply (Hfinal _ [] c1 (Returned false) ins1); [reflexivity|apply sfrom_nil|apply srest_refl|exact H]. }
+  set (NC := intersect (sc_comp conf) (supported_comp (sc_kind conf))).
+  set (NE := intersect (sc_enc conf) (supported_enc (sc_kind conf))).
+  set (AN := if needs_negotiation fx conf c1 NC NE then _ else _).
+  assert (HAN : forall e1 c3 o3 i3, AN = (e1, c3, o3, i3) -> sfrom e1 ins1 /\ srest i3 ins1).
+  { subst AN. destruct (needs_negotiation fx conf c1 NC NE).
+    - intros e1 c3 o3 i3 H. eapply negotiate_sfrom; exact H.
+    - intros e1 c3 o3 i3 H. inversion H; subst. split; [apply sfrom_nil|apply srest_refl]. }
+  destruct AN as [[[e1 c3] o3] i3]. destruct (HAN _ _ _ _ eq_refl) as [F1 R1].
+  destruct o3 as [[|]| |]; try (intros H; inversion H; subst; split; assumption).
+  destruct (state_eqb (ch_state c3) SFailed).
+  { intros H. cbn [negb] in H. rewrite andb_false_r in H. cbn [andb] in H. inversion H; subst. split; assumption. }
+  destruct (authenticate_session conf o c3 i3) as [[[e2 c4] o4] i4] eqn:A.
+  destruct (authenticate_sfrom _ _ _ _ _ _ _ _ A) as [F2 R2].
+  intros H. eapply (Hfinal _ (e1 ++ e2) c4 o4 i4); [reflexivity| | |exact H].
+  - apply sfrom_app; [exact F1|eapply sfrom_rest; eassumption].
+  - eapply srest_trans; eassumption.
+Qed.
+
+Lemma finish_sfrom conf c e c' ins : finish_session conf c = (e, c') -> sfrom e ins.
+Proof.
+  unfold finish_session. destruct (negb (ch_conn c && state_eqb (ch_state c) SEstablished)); intros H; inversion H; subst.
+  - apply sfrom_nil.
+  - intros i [Hi|[Hi|[]]]; discriminate.
+Qed.
+
+Lemma serve_sfrom fx conf : forall ins c e c' b, serve_established fx conf c ins = (e, c', b) -> sfrom e ins.
+Proof.
+  induction ins as [|i ins IH]; intros c e c' b H; cbn in H.
+  - inversion H; subst. apply sfrom_nil.
+  - destruct i as [s| | |].
+    + destruct (finish_session conf c) as [e1 c1] eqn:F. inversion H; subst.
+      intros k [Hk|Hk]; [inversion Hk; left; reflexivity|].
+      apply in_app_or in Hk. destruct Hk as [Hk|[Hk|[]]]; [|discriminate].
+      exfalso. revert Hk. unfold finish_session in F.
+      destruct (negb (ch_conn c && state_eqb (ch_state c) SEstablished)); inversion F; subst; cbn; intuition discriminate.
+    + destruct (serve_established fx conf c ins) as [[e1 c1] b1] eqn:S1. inversion H; subst.
+      intros k [Hk|[Hk|Hk]]; [inversion Hk; left; reflexivity|discriminate|right; eapply IH; eassumption].
+    + destruct (finish_session conf c) as [e1 c1] eqn:F. inversion H; subst.
+      intros k [Hk|Hk]; [inversion Hk; left; reflexivity|].
+      apply in_app_or in Hk. destruct Hk as [Hk|[Hk|[]]]; [|discriminate].
+      exfalso. revert Hk. unfold finish_session in F.
+      destruct (negb (ch_conn c && state_eqb (ch_state c) SEstablished)); inversion F; subst; cbn; intuition discriminate.
+    + inversion H; subst. intros k [Hk|Hk]; [inversion Hk; left; reflexivity|].
+      apply in_app_or in Hk. destruct Hk as [Hk|[Hk|[]]]; [|discriminate].
+      destruct (fs_handle fx); [destruct Hk as [Hk|[]]; discriminate|destruct Hk].
+Qed.
+
+(* every input the server took is an item of its script *)
+Theorem server_takes_from_its_script fx conf o ins i :
+  In (Took i) (rr_trace (handle_channel fx conf o ins)) -> In i ins.
+Proof.
+  unfold handle_channel.
+  destruct (establish fx conf o ins) as [[[evs c] out] rest] eqn:E.
+  destruct (establish_sfrom _ _ _ _ _ _ _ _ E) as [F R].
+  destruct out as [[|]| |]; cbn [rr_trace].
+  - destruct (fs_handle fx); cbn [rr_trace]; [|apply F].
+    intros H. apply in_app_or in H. destruct H as [H|[H|[]]]; [apply F; exact H|discriminate].
+  - destruct (state_eqb (ch_state c) SEstablished).
+    + destruct (serve_established fx conf c rest) as [[e2 c2] ended] eqn:S1. cbn [rr_trace].
+      intros H. apply in_app_or in H. destruct H as [H|H]; [apply F; exact H|].
+      destruct H as [H|H]; [discriminate|]. apply R. eapply serve_sfrom; eassumption.
+    + destruct (fs_handle fx); cbn [rr_trace]; [apply F|].
+      intros H. apply in_app_or in H. destruct H as [H|[H|[H|[]]]]; [apply F; exact H|discriminate|discriminate].
+  - apply F.
+  - apply F.
+Qed.
+
+(* ---- the client's side ---- *)
+
+
+(* credentials on the wire are the client's own: the configured identity, and a scheme and secret that the
+   configured authenticator returned *)
+Definition own (cc : cconf) (u : usent) : Prop :=
+  match us_cred u with
+  | None => True
+  | Some c => us_from u = cc_identity cc /\ exists opts rt, cc_auth cc opts rt = (us_scheme u, c)
+  end.
+Definition all_own (cc : cconf) (e : list cev) : Prop := forall u enc, In (USent u enc) e -> own cc u.
+
+Lemma all_own_nil cc : all_own cc []. Proof. intros ? ? []. Qed.
+Lemma all_own_app cc a b : all_own cc a -> all_own cc b -> all_own cc (a ++ b).
+Proof. intros Ha Hb u enc Hi. apply in_app_or in Hi. destruct Hi; [eapply Ha|eapply Hb]; eassumption. Qed.
+Lemma all_own_nosent cc e : (forall u enc, ~ In (USent u enc) e) -> all_own cc e.
+Proof. intros H u enc Hi. destruct (H u enc Hi). Qed.
+
+Lemma ureceive_nosent : forall fx ins c x c' r e, ureceive fx c ins = (x, c', r, e) -> forall u enc, ~ In (USent u enc) e.
+Proof.
+  intros fx ins. induction ins as [|i ins IH]; intros c x c' r e H u enc Hi.
+  - cbn in H. destruct (uc_state c); try (destruct (negb (uc_conn c))); inversion H; subst; destruct Hi.
+  - cbn -[Nat.ltb] in H. destruct (uc_state c) eqn:Es.
+    4:{ destruct i as [s| | |].
+        - match type of H with (if ?b then _ else _) = _ => destruct b end; [destruct (fc_regress fx)|];
+            inversion H; subst; destruct Hi as [Hi|[]]; discriminate.
+        - destruct (ureceive fx c ins) as [[[x1 c1] r1] e1] eqn:E. inversion H; subst.
+          destruct Hi as [Hi|Hi]; [discriminate|]. eapply IH; eassumption.
+        - inversion H; subst; destruct Hi as [Hi|[]]; discriminate.
+        - inversion H; subst; destruct Hi as [Hi|[]]; discriminate. }
+    5:{ inversion H; subst; destruct Hi. }
+    all: destruct (negb (uc_conn c)); [inversion H; subst; destruct Hi|];
+         destruct i; inversion H; subst; destruct Hi as [Hi|[]]; discriminate.
+Qed.
+
+Lemma receive_nosent fx c ins x c' r e : receive_from_server fx c ins = (x, c', r, e) -> forall u enc, ~ In (USent u enc) e.
+Proof.
+  intros H u enc Hi. unfold receive_from_server in H.
+  destruct (ureceive fx c ins) as [[[x1 c1] r1] e1] eqn:E. pose proof (ureceive_nosent _ _ _ _ _ _ _ E u enc) as N.
+  destruct x1 as [s| | |]; try (inversion H; subst; exact (N Hi)).
+  destruct (Nat.ltb (step_of (vs_state s)) (step_of (uc_state c1))).
+  - destruct (fc_regress fx); inversion H; subst; exact (N Hi).
+  - destruct (terminal (vs_state s)).
+    + match type of H with (if ?b then _ else _) = _ => destruct b end; inversion H; subst; try exact (N Hi).
+      apply in_app_or in Hi. destruct Hi as [Hi|[Hi|[]]]; [exact (N Hi)|discriminate].
+    + inversion H; subst; exact (N Hi).
+Qed.
+
+Lemma usend_own cc c u evs ok : usend c u = (evs, ok) -> own cc u -> all_own cc evs.
+Proof.
+  unfold usend. intros H Ho.
+  destruct (negb (uc_conn c)); [inversion H; apply all_own_nil|].
+  destruct (terminal (uc_state c)); inversion H; subst; [apply all_own_nil|].
+  intros u' enc [Hi|[]]. inversion Hi; subst. exact Ho.
+Qed.
+
+Lemma cauth_own : forall fuel fx conf c ses rt ins evs c' out,
+  cauth_loop fuel fx conf c ses rt ins = (evs, c', out) -> all_own conf evs.
+Proof.
+  induction fuel as [|fuel IH]; intros fx conf c ses rt ins evs c' out H; cbn in H.
+  - inversion H; subst. apply all_own_nil.
+  - destruct (negb (state_eqb (vs_state ses) SAuthenticating)); [inversion H; subst; apply all_own_nil|].
+    destruct (negb (uc_conn c && state_eqb (uc_state c) SAuthenticating)); [inversion H; subst; apply all_own_nil|].
+    destruct (cc_auth conf (vs_schemeopts ses) rt) as [scheme cred] eqn:A.
+    match type of H with context [usend c ?u] => destruct (usend c u) as [e0 ok] eqn:Sd end.
+    assert (F0 : all_own conf e0).
+    { eapply usend_own; [exact Sd|]. unfold own. cbn. split; [reflexivity|]. exists (vs_schemeopts ses), rt. exact A. }
+    destruct (negb ok); [inversion H; subst; exact F0|].
+    destruct (receive_from_server fx c ins) as [[[x c1] r1] e1] eqn:R.
+    pose proof (all_own_nosent conf _ (receive_nosent _ _ _ _ _ _ _ R)) as F1.
+    destruct x as [s'| | |]; try (inversion H; subst; apply all_own_app; assumption).
+    destruct (cauth_loop fuel fx conf c1 s' (vs_round s') r1) as [[e2 c2] o2] eqn:L.
+    inversion H; subst. apply all_own_app; [exact F0|apply all_own_app; [exact F1|eapply IH; exact L]].
+Qed.
+
+Lemma own_nocred cc u : us_cred u = None -> own cc u.
+Proof. unfold own. intros ->. exact I. Qed.
+
+Theorem client_presents_its_own_credentials fx conf ins t c out :
+  cestablish fx conf ins = (t, c, out) -> all_own conf t.
+Proof.
+  intros H. unfold cestablish in H.
+  match type of H with context [usend ?c0 ?u] => destruct (usend c0 u) as [e0 ok0] eqn:S0 end.
+  assert (F0 : all_own conf e0) by (eapply usend_own; [exact S0|apply own_nocred; reflexivity]).
+  destruct (negb ok0); [inversion H; subst; exact F0|].
+  destruct (receive_from_server fx (cchan0 conf) ins) as [[[x1 c1] ins1] e1] eqn:R1.
+  pose proof (all_own_nosent conf _ (receive_nosent _ _ _ _ _ _ _ R1)) as F1.
+  destruct x1 as [ses| | |]; try (inversion H; subst; apply all_own_app; assumption).
+  assert (Fpre : all_own conf (e0 ++ e1)) by (apply all_own_app; assumption).
+  destruct (state_eqb (vs_state ses) SNegotiating).
+  2:{ destruct (cauth_loop (S (List.length ins1)) fx conf c1 ses None ins1) as [[ea ca] oa] eqn:L.
+      inversion H; subst. apply all_own_app; [exact Fpre|eapply cauth_own; exact L]. }
+  destruct (negb (uc_conn c1 && state_eqb (uc_state c1) SNegotiating)); [inversion H; subst; exact Fpre|].
+  match type of H with context [usend c1 ?u] => destruct (usend c1 u) as [e2 ok2] eqn:S2 end.
+  assert (F2 : all_own conf e2) by (eapply usend_own; [exact S2|apply own_nocred; reflexivity]).
+  destruct (negb ok2); [inversion H; subst; apply all_own_app; assumption|].
+  destruct (receive_from_server fx c1 ins1) as [[[x2 c2] ins2] e3] eqn:R2.
+  pose proof (all_own_nosent conf _ (receive_nosent _ _ _ _ _ _ _ R2)) as F3.
+  destruct x2 as [ses2| | |];
+    try (inversion H; subst; apply all_own_app; [exact Fpre|apply all_own_app; assumption]).
+  set (A := (if state_eqb (vs_state ses2) SNegotiating then _ else ([], c2, true))) in H.
+  assert (FA : all_own conf (fst (fst A))); [|destruct A as [[e4 c3] okA]; cbn [fst] in FA].
+  { apply all_own_nosent. intros u enc. subst A. destruct (state_eqb (vs_state ses2) SNegotiating); [|intros []].
+    destruct (negb (String.eqb (vs_comp ses2) "") && negb (String.eqb (vs_comp ses2) (uc_comp c2))); cbn [fst snd].
+    - destruct (set_comp (cc_kind conf) (uc_comp c2) (vs_comp ses2)); cbn [negb fst].
+      + destruct (negb (String.eqb (vs_enc ses2) "") && negb (String.eqb (vs_enc ses2) (uc_enc c2))).
+        * destruct (set_enc (cc_kind conf) (cc_tls_ok conf) (uc_enc c2) (vs_enc ses2)) as [oke enc'].
+          cbn. intuition discriminate.
+        * cbn. intuition discriminate.
+      + cbn. intuition discriminate.
+    - cbn [negb].
+      destruct (negb (String.eqb (vs_enc ses2) "") && negb (String.eqb (vs_enc ses2) (uc_enc c2))).
+      + destruct (set_enc (cc_kind conf) (cc_tls_ok conf) (uc_enc c2) (vs_enc ses2)) as [oke enc'].
+        cbn. intuition discriminate.
+      + cbn. intuition. }
+  assert (Fpre2 : all_own conf ((e0 ++ e1) ++ e2 ++ e3))
+    by (apply all_own_app; [exact Fpre|apply all_own_app; assumption]).
+  destruct (negb okA); [inversion H; subst; apply all_own_app; assumption|].
+  destruct (receive_from_server fx c3 ins2) as [[[x3 c4] ins3] e5] eqn:R3.
+  pose proof (all_own_nosent conf _ (receive_nosent _ _ _ _ _ _ _ R3)) as F5.
+  destruct x3 as [ses3| | |];
+    try (inversion H; subst; apply all_own_app; [exact Fpre2|apply all_own_app; assumption]).
+  destruct (cauth_loop (S (List.length ins3)) fx conf c4 ses3 None ins3) as [[ea ca] oa] eqn:L.
+  inversion H; subst. apply all_own_app; [|eapply cauth_own; exact L].
+  apply all_own_app; [exact Fpre2|apply all_own_app; assumption].
+Qed.
+
+(* ---- together ---- *)
+Lemma last_in_took : forall t acc i, last_in t acc = Some i -> In (Took i) t \/ acc = Some i.
+Proof.
+  induction t as [|e t IH]; intros acc i H; cbn in H; [right; exact H|].
+  destruct e; try (destruct (IH _ _ H) as [Hi|Hi]; [left; right; exact Hi|right; exact Hi]).
+  destruct (IH _ _ H) as [Hi|Hi]; [left; right; exact Hi|]. injection Hi as <-. left; left; reflexivity.
+Qed.
+
+Lemma c_out_in : forall t i, In i (c_out t) ->
+  (exists u enc, In (USent u enc) t /\ to_cin u = i) \/ i = CEof.
+Proof.
+  intros t i H. unfold c_out in H. apply in_flat_map in H. destruct H as (e & He & Hi).
+  destruct e; try (destruct Hi; fail).
+  - destruct Hi as [Hi|[]]. left. exists s, enc. split; assumption.
+  - destruct Hi as [Hi|[]]. right. symmetry; exact Hi.
+Qed.
+
+(* In a joint run - the client's writes are the server's script - every Authenticate call that is handed
+   credentials is about the client's configured identity, and its scheme and secret are what the client's
+   configured authenticator returned: nothing else is ever authenticated. *)
+Theorem server_authenticates_what_the_client_presented wire snode sc o cc cins :
+  consistent wire snode sc o cc cins ->
+  forall pre f sch c enc post,
+  rr_trace (server_on sc o cins) = pre ++ AuthCall f sch (Some c) enc :: post ->
+  f = cc_identity cc /\ exists opts rt, cc_auth cc opts rt = (sch, c).
+Proof.
+  intros Hcons pre f sch c enc post Ht.
+  destruct (server_accepts sc o cins) as [Ha _]. cbn zeta in Ha. unfold accepts in Ha.
+  fold (server_on sc o cins) in Ha. rewrite Ht in Ha.
+  destruct (mon_run sc o (m0 sc) (pre ++ AuthCall f sch (Some c) enc :: post)) as [m'|] eqn:E; [|discriminate].
+  destruct (accepted_authcall_is_for_latest_input sc o _ _ _ _ _ _ _ E) as (ses & H1 & H2 & H3 & H4 & _).
+  destruct (last_in_took _ _ _ H1) as [Hin|Hin]; [|discriminate].
+  assert (Hin' : In (Took (CSes ses)) (rr_trace (server_on sc o cins))).
+  { rewrite Ht. apply in_or_app. left. exact Hin. }
+  apply server_takes_from_its_script in Hin'.
+  unfold consistent, round in Hcons. rewrite <- Hcons in Hin'.
+  destruct (c_out_in _ _ Hin') as [(u & uenc & Hu & Hto)|Heof]; [|discriminate].
+  unfold client_on, ctrace in Hu.
+  destruct (cestablish c_repaired cc _) as [[t cch] out] eqn:EC. cbn [fst] in Hu.
+  pose proof (client_presents_its_own_credentials _ _ _ _ _ _ EC u uenc Hu) as Hown.
+  unfold to_cin in Hto. injection Hto as <-. cbn in H2, H3, H4. unfold own in Hown.
+  unfold presented_scheme in H3. cbn in H3. rewrite <- H4 in *. subst f sch. exact Hown.
+Qed.
